@@ -253,6 +253,10 @@ func ResponseCorpus(thorough bool) []*RespItem {
 	add("http10", g, "HTTP/1.0 200 OK\r\n\r\nold style body")
 	add("continue", g, "HTTP/1.1 100 Continue\r\n\r\nHTTP/1.1 200 OK\r\nContent-Length: 2\r\n\r\nok")
 	add("folded", g, "HTTP/1.1 200 OK\r\nX-Fold: p1\r\n p2\r\n\tp3\r\nContent-Length: 3\r\n\r\nabc")
+	// framing fields whose value starts on a continuation line (obs-fold), or is spread over two lines
+	add("folded-content-length", g, "HTTP/1.1 200 OK\r\nContent-Length:\r\n 5\r\nX-A: b\r\n\r\nhello")
+	add("folded-transfer-encoding", g, "HTTP/1.1 200 OK\r\nTransfer-Encoding:\r\n\tchunked\r\n\r\n3\r\nabc\r\n0\r\n\r\n")
+	add("folded-connection-two", gg, "HTTP/1.1 200 OK\r\nConnection:\r\n keep-alive\r\nContent-Length: 1\r\n\r\n1", "HTTP/1.1 200 OK\r\nContent-Length: 1\r\n\r\n2")
 	add("204", g, "HTTP/1.1 204 No Content\r\nX-A: 1\r\n\r\n")
 	add("304", g, "HTTP/1.1 304 Not Modified\r\nContent-Length: 10\r\n\r\n")
 	add("head", []string{"HEAD"}, "HTTP/1.1 200 OK\r\nContent-Length: 10\r\n\r\n")
